@@ -55,12 +55,21 @@ def measurement_specs(draw, attrs, shape, min_m=1, max_m=5, max_proj=3, max_cell
         proj = draw(gen.ordered_subset(attrs, 1, max_proj))
         while int(np.prod([sizes[a] for a in proj])) > max_cells and len(proj) > 1:
             proj = proj[:-1]
-        mode = draw(st.sampled_from(['new', 'new', 'new', 'dup', 'nest', 'reorder'])) if out else 'new'
+        mode = draw(st.sampled_from(['new', 'new', 'new', 'dup', 'nest', 'reorder', 'overlap', 'overlap'])) if out else 'new'
         if mode == 'dup':
             proj = list(draw(st.sampled_from(out))['proj'])
         elif mode == 'nest':
             base = draw(st.sampled_from(out))['proj']
             proj = list(base[:max(1, len(base) - 1)])
+        elif mode == 'overlap':
+            base = draw(st.sampled_from(out))['proj']
+            others = [a for a in attrs if a not in base]
+            if others:
+                keep = draw(st.sampled_from(base))
+                new = draw(st.sampled_from(others))
+                proj = [keep, new] if draw(st.booleans()) else [new, keep]
+                if int(np.prod([sizes[a] for a in proj])) > max_cells:
+                    proj = [new]
         elif mode == 'reorder':
             base = draw(st.sampled_from(out))['proj']
             proj = list(reversed(base))
@@ -196,8 +205,8 @@ def zero_mask(zspecs, attrs, shape):
 
 @st.composite
 def est_cases(draw, min_attrs=2, max_attrs=4, max_size=4, cap=256, min_m=0, max_m=5, zeros=False, iters=(1, 2, 3, 10, 50),
-              solvers=('MD', 'RDA', 'IG'), totals=(1.0, 10, 1000.0, 37.5, None, None), kinds=None, allow_empty_zero=False):
-    dom = draw(gen.domains(min_attrs, max_attrs, 1, max_size, cap=cap))
+              solvers=('MD', 'RDA', 'IG'), totals=(1.0, 10, 1000.0, 37.5, None, None), kinds=None, allow_empty_zero=False, min_size=1):
+    dom = draw(gen.domains(min_attrs, max_attrs, min_size, max_size, cap=cap))
     attrs, shape = dom['attrs'], dom['shape']
     meas = draw(measurement_specs(attrs, shape, min_m, max_m, max_proj=3, max_cells=64, kinds=kinds)) if max_m > 0 else []
     witness = [draw(st.integers(0, s - 1)) for s in shape]
